@@ -9,7 +9,7 @@ From FF Require Import Lib.Word Gen.Consts_device_acpi_aml Gen.Consts_aml_tree A
   Aml.ParserTotalFrame Aml.ParserTotalFirst Aml.ParserTotalConn Aml.ParserTotalNonNamed Aml.ParserTotalCalls Aml.ParserTotalReloc
   Aml.ParserTotalMerge Aml.ParserTotalResolve Aml.ParserTotalDefer Aml.ParserTotalDeferW Aml.ParserTotalDeferV
   Aml.ParserTotalTyped Aml.ParserTotalShape Aml.ParserTotalChain Aml.ParserTotalConn2 Aml.ParserTotalPass2
-  Aml.ParserTotalBenign Aml.ParserTotalFirst2 Aml.ParserTotalNameLex Aml.ParserTotalGoodPath Aml.ParserTotalFreeName Aml.ParserTotalPass1.
+  Aml.ParserTotalBenign Aml.ParserTotalFirst2 Aml.ParserTotalNameLex Aml.ParserTotalGoodPath Aml.ParserTotalPass1 Aml.ParserTotalHandle.
 Import ListNotations.
 Local Open Scope N_scope.
 
@@ -102,8 +102,6 @@ Proof.
   - eexists. split; vm_compute; reflexivity.
   - unfold TM2. apply (ds_all (fun m mo => o_opcode mo = aml_pOpMethod -> mtyped2 ds_tree ds_ghost m)). intros n o Hlt Hn Hop.
     ds_cases n Hlt Hn o ltac:(vm_compute in Hop; discriminate).
-  - unfold FN. apply (ds_all (fun i o => o_opcode o = opFreed -> name_lead (o_name o) = false)). intros n o Hlt Hn Hop.
-    ds_cases n Hlt Hn o ltac:(vm_compute in Hop; discriminate).
   - unfold typed. apply (ds_all (fun i o => o_opcode o <> opFreed -> o_opcode o = aml_pOpIntNamePathOrMethodCall -> exists tbl sl, o_value o = Some (VBytes tbl sl))).
     intros n o Hlt Hn _ Hop. ds_cases n Hlt Hn o ltac:(vm_compute in Hop; discriminate).
   - unfold pool_ok. rewrite Forall_forall. intros o Hin. destruct (In_nth_error _ _ Hin) as (n & Hn).
@@ -126,11 +124,12 @@ Proof.
   destruct (parseAML ds_tree [] 1 (table_image payload)) as [[[|] s]| |]; cbn [fst]; try discriminate. contradiction.
 Qed.
 
-(** ---- a sequence of tables, modulo what is not proved about the state ParseAML returns ---- *)
+(** ---- a sequence of tables ---- *)
+(** [INV]: the hypotheses of parseAML_never_panics about the pool, with "every handle in the pool is below the next handle" *)
 Definition INV (tree : T) (g : ghost) (earlier : list (list N)) (h : N) : Prop :=
   R tree g /\ info_valid tree /\ glive g 0 /\ groot g 0 /\
   (exists o, tget tree 0 = Some o /\ o_opcode o = aml_pOpIntScopeBlock) /\
-  TM2 tree g /\ FN tree /\ typed tree /\ pool_ok earlier tree /\
+  TM2 tree g /\ typed tree /\ pool_ok earlier tree /\
   (forall i o, tget tree i = Some o -> o_tableHandle o < h).
 
 Definition fits (tree : T) (data : list N) : Prop :=
@@ -138,13 +137,27 @@ Definition fits (tree : T) (data : list N) : Prop :=
   (let L := N.of_nat (length (t_pool tree)) + 4 * N.of_nat (length data) + 2 in
    L + L * (8 * N.of_nat (length data) + 3) + 4 <= InvalidIndex).
 
-(** the conjuncts of [INV] that are NOT derived for the state a successful ParseAML returns ([R], valid indexes and
-    slices-inside are) *)
-Definition RES (s' : pstate) (h : N) : Prop :=
-  forall g', R (p_tree s') g' ->
-    glive g' 0 /\ groot g' 0 /\ (exists o, tget (p_tree s') 0 = Some o /\ o_opcode o = aml_pOpIntScopeBlock) /\
-    TM2 (p_tree s') g' /\ FN (p_tree s') /\ typed (p_tree s') /\
-    (forall i o, tget (p_tree s') i = Some o -> o_tableHandle o < h + 1).
+(** the ONE conjunct of [INV] that is not derived for the state a successful ParseAML returns: the typing of the Methods *)
+Definition RES (s' : pstate) : Prop := forall g', R (p_tree s') g' -> TM2 (p_tree s') g'.
+
+(** a successful ParseAML re-establishes [INV] for the next handle, modulo [RES]: [R], valid indexes, slices inside the tables,
+    the live parentless ScopeBlock root, the []byte typing and the handle bound are all derived *)
+Theorem parseAML_keeps_INV_mod : forall tree g earlier h data s,
+  INV tree g earlier h -> fits tree data -> parseAML tree earlier h data = Ok (true, s) -> RES s ->
+  exists g', INV (p_tree s) g' (earlier ++ [data]) (h + 1).
+Proof.
+  intros tree g earlier h data s (HR & Hi & H0 & Hr0 & Hsb & HTM & Hty & Hpool & Hh) (Him & Hcap) E Hres.
+  assert (Hfresh : forall i o, tget tree i = Some o -> o_tableHandle o <> h) by (intros i o Ho E'; specialize (Hh i o Ho); lia).
+  pose proof (parseAML_body_post_root tree g earlier h data (parse_fuel (length data + length (t_pool tree)))
+                HR Hi H0 Hr0 Hsb HTM Hty Hpool Hfresh Him Hcap) as W.
+  unfold parseAML in E. rewrite E in W. destruct W as (g' & HR' & Hi' & _ & Hb). destruct (Hb eq_refl) as (B0 & B1 & B2 & B3).
+  assert (Him' : image_ok data) by (destruct Him as (Hb' & Hl); split; [exact Hb'|unfold two32 in *; lia]).
+  destruct (parseAML_inv tree earlier h data true s Him' Hpool E) as (Hp' & _).
+  exists g'. split; [exact HR'|]. split; [exact Hi'|]. split; [exact B0|]. split; [exact B1|]. split; [exact B3|].
+  split; [apply Hres; exact HR'|]. split; [exact B2|]. split; [exact Hp'|].
+  intros i o Ho. assert (Hle : o_tableHandle o <= h); [|lia].
+  apply (parseAML_handles tree earlier h data true s (fun j oj Hj => N.lt_le_incl _ _ (Hh j oj Hj)) E i o Ho).
+Qed.
 
 Fixpoint SEQ (tree : T) (earlier : list (list N)) (h : N) (payloads : list (list N)) : Prop :=
   match payloads with
@@ -152,24 +165,21 @@ Fixpoint SEQ (tree : T) (earlier : list (list N)) (h : N) (payloads : list (list
   | p :: rest =>
       let data := table_image p in
       fits tree data /\
-      forall s, parseAML tree earlier h data = Ok (true, s) -> RES s h /\ SEQ (p_tree s) (earlier ++ [data]) (h + 1) rest
+      forall s, parseAML tree earlier h data = Ok (true, s) -> RES s /\ SEQ (p_tree s) (earlier ++ [data]) (h + 1) rest
   end.
 
 Theorem load_tables_never_panics_mod : forall payloads tree g earlier h,
   INV tree g earlier h -> SEQ tree earlier h payloads -> fst (fst (load_tables tree earlier h payloads)) <> 2.
 Proof.
   induction payloads as [|p rest IH]; intros tree g earlier h HI HS; cbn [load_tables]; [cbn; discriminate|].
-  destruct HI as (HR & Hi & H0 & Hr0 & Hsb & HTM & HFN & Hty & Hpool & Hh).
-  cbn [SEQ] in HS. cbv zeta in HS. destruct HS as ((Him & Hcap) & Hnext).
+  cbn [SEQ] in HS. cbv zeta in HS. destruct HS as (Hfit & Hnext).
+  pose proof HI as (HR & Hi & H0 & Hr0 & Hsb & HTM & Hty & Hpool & Hh). pose proof Hfit as (Him & Hcap).
   assert (Hfresh : forall i o, tget tree i = Some o -> o_tableHandle o <> h) by (intros i o Ho E; specialize (Hh i o Ho); lia).
-  pose proof (parseAML_never_panics tree g earlier h (table_image p) HR Hi H0 Hr0 Hsb HTM HFN Hty Hpool Hfresh Him Hcap) as W.
+  pose proof (parseAML_never_panics tree g earlier h (table_image p) HR Hi H0 Hr0 Hsb HTM Hty Hpool Hfresh Him Hcap) as W.
   cbv zeta. destruct (parseAML tree earlier h (table_image p)) as [[[|] s]| |] eqn:E; cbn [fst]; try discriminate; [|contradiction].
-  destruct W as (g' & HR' & Hi' & _). destruct (Hnext s eq_refl) as (Hres & Hseq).
-  destruct (Hres g' HR') as (A1 & A2 & A3 & A4 & A5 & A6 & A7).
-  assert (Him' : image_ok (table_image p)) by (destruct Him as (Hb & Hl); split; [exact Hb|unfold two32 in *; lia]).
-  destruct (parseAML_inv tree earlier h (table_image p) true s Him' Hpool E) as (Hp' & _).
-  apply (IH (p_tree s) g' (earlier ++ [table_image p]) (h + 1)); [|exact Hseq].
-  repeat (split; [assumption|]). exact A7.
+  destruct (Hnext s eq_refl) as (Hres & Hseq).
+  destruct (parseAML_keeps_INV_mod tree g earlier h (table_image p) s HI Hfit E Hres) as (g' & HI').
+  apply (IH (p_tree s) g' (earlier ++ [table_image p]) (h + 1) HI' Hseq).
 Qed.
 
 Lemma ds_INV : INV ds_tree ds_ghost [] 1.
@@ -179,8 +189,6 @@ Proof.
           ds_cases n Hlt Hn o ltac:(vm_compute; discriminate)|].
   split; [ds_live|]. split; [apply groot_chk; vm_compute; reflexivity|]. split; [eexists; split; vm_compute; reflexivity|].
   split; [unfold TM2; apply (ds_all (fun m mo => o_opcode mo = aml_pOpMethod -> mtyped2 ds_tree ds_ghost m)); intros n o Hlt Hn Hop;
-          ds_cases n Hlt Hn o ltac:(vm_compute in Hop; discriminate)|].
-  split; [unfold FN; apply (ds_all (fun i o => o_opcode o = opFreed -> name_lead (o_name o) = false)); intros n o Hlt Hn Hop;
           ds_cases n Hlt Hn o ltac:(vm_compute in Hop; discriminate)|].
   split; [unfold typed; apply (ds_all (fun i o => o_opcode o <> opFreed -> o_opcode o = aml_pOpIntNamePathOrMethodCall -> exists tbl sl, o_value o = Some (VBytes tbl sl)));
           intros n o Hlt Hn _ Hop; ds_cases n Hlt Hn o ltac:(vm_compute in Hop; discriminate)|].
